@@ -55,7 +55,7 @@ ELEMENT = [
 ]
 
 UNIT = Unit(
-    name='opt_kotlin', props=['C04', 'C07'], pre_verus=O.PRE_VERUS, spec_files=['std_slices.rs', 'typexpr.rs', 'txt.rs', 'optmark.rs'], prelude=PRELUDE,
+    name='opt_kotlin', props=['C04', 'C07'], pre_verus=O.PRE_VERUS, spec_files=['std_slices.rs', 'seqjoin.rs', 'typexpr.rs', 'txt.rs', 'optmark.rs'], prelude=PRELUDE,
     items=O.base_items('Kotlin', SRC) + [
         Item('enum_Visibility', SRC, ['enum Visibility']),
         Item('write_element', SRC, ['impl Kotlin {', 'fn write_element'], ELEMENT, wrap=('impl Kotlin {\n', '\n}\n'),
